@@ -129,9 +129,11 @@ class Destinations(object):
                 new_msg = {
                     MESSAGE_TYPE_FIELD: DESTINATION_FAILURE,
                     REASON_FIELD: safeunicode(exception),
-                    EXCEPTION_FIELD: exception.__class__.__module__
-                    + "."
-                    + exception.__class__.__name__,
+                    EXCEPTION_FIELD: "%s.%s"
+                    % (
+                        exception.__class__.__module__,
+                        exception.__class__.__name__,
+                    ),
                     "message": _safe_unicode_dictionary(message),
                 }
                 if logger is not None:
